@@ -54,7 +54,10 @@ theorem C17_activated_step (body : Nat → List Nat) (varOf : Nat → Nat) (s : 
     | some qr =>
       simp only
       split
-      · exact ⟨pr, hp, ha⟩
+      · simp only [modifyNth_get]
+        by_cases hpq : p = q
+        · subst hpq; exact ⟨{ pr with stages := [] }, by simp [hp], ha⟩
+        · exact ⟨pr, by simp [hpq, hp], ha⟩
       · simp only [modifyNth_get]
         by_cases hpq : p = q
         · subst hpq; exact ⟨{ pr with active := false, stages := [] }, by simp [hp], ha⟩
@@ -125,7 +128,10 @@ theorem C17_dead_step (body : Nat → List Nat) (varOf : Nat → Nat) (s : State
     | some qr =>
       simp only
       split
-      · exact ⟨pr, hp, ha, hd⟩
+      · simp only [modifyNth_get]
+        by_cases hpq : p = q
+        · subst hpq; exact ⟨{ pr with stages := [] }, by simp [hp], ha, hd⟩
+        · exact ⟨pr, by simp [hpq, hp], ha, hd⟩
       · simp only [modifyNth_get]
         by_cases hpq : p = q
         · subst hpq; exact ⟨{ pr with active := false, stages := [] }, by simp [hp], ha, rfl⟩
